@@ -2415,6 +2415,85 @@ def folds_in_python(spec) -> bool:
 SHRINK_CAP = 12  # failing trees reduced per chunk; further ones are counted only
 
 
+_PROGRESS_FD = None
+HARD_TREE_LIMIT_S = 60
+
+
+def run_trees_guarded(args) -> dict:
+    """run_trees in a forked child with a hard watchdog.  SIGALRM (the per-tree limit) cannot interrupt a single long C-level
+    operation (a huge integer power inside SymPy / CPython); a child that starts no new tree for HARD_TREE_LIMIT_S seconds is
+    killed, the tree it was working on is recorded as out of reach (not a verdict) and the chunk is redone without it."""
+    import pickle
+    import select
+    import signal
+    global _PROGRESS_FD
+    kind, pid_, gname, symset, depth, items = args
+    items = list(items)
+    culprits = []
+    while True:
+        todo = [i for i in items if i not in culprits]
+        rr, rw = os.pipe()
+        pr, pw = os.pipe()
+        child = os.fork()
+        if child == 0:
+            try:
+                os.close(rr)
+                os.close(pr)
+                _PROGRESS_FD = pw
+                out = run_trees((kind, pid_, gname, symset, depth, todo))
+                data = pickle.dumps(out)
+                with os.fdopen(rw, "wb") as fh:
+                    fh.write(data)
+            finally:
+                os._exit(0)
+        os.close(rw)
+        os.close(pw)
+        buf, last, current, done = b"", time.time(), None, False
+        pbuf = b""
+        while True:
+            ready, _, _ = select.select([rr, pr], [], [], 1.0)
+            if pr in ready:
+                chunk = os.read(pr, 65536)
+                if chunk:
+                    pbuf += chunk
+                    lines = pbuf.split(b"\n")
+                    pbuf = lines[-1]
+                    if len(lines) > 1:
+                        current = int(lines[-2])
+                        last = time.time()
+            if rr in ready:
+                chunk = os.read(rr, 1 << 20)
+                if chunk:
+                    buf += chunk
+                    last = time.time()
+                else:
+                    done = True
+            if done:
+                break
+            if time.time() - last > HARD_TREE_LIMIT_S:
+                break
+        for fd in (rr, pr):
+            os.close(fd)
+        if done and buf:
+            os.waitpid(child, 0)
+            res = pickle.loads(buf)
+            for ix in culprits:
+                name = f"{pid_}/tree/{gname}:{symset}/" + (f"d{depth}#{ix}" if GRAMMARS.get(gname) else f"shape#{ix}")
+                res["oor"].append((name, f"hard time limit of {HARD_TREE_LIMIT_S}s exceeded in an uninterruptible computation (not a verdict)"))
+            return res
+        try:
+            os.kill(child, signal.SIGKILL)
+        except ProcessLookupError:
+            pass
+        os.waitpid(child, 0)
+        if current is None or current in culprits:
+            # the child died or hung before its first heartbeat: give the whole chunk up (reported, never a verdict)
+            return {"group": gname, "symset": symset, "count": 0, "failures": [], "skipped": 0, "trivial": 0, "backends": {}, "dups": 0,
+                    "observed": {"validated": 0, "agree": 0, "disagree": []},
+                    "oor": [(f"{pid_}/tree/{gname}:{symset}/chunk@{items[0] if items else 0}", "worker died without a result (not a verdict)")]}
+        culprits.append(current)
+
+
 def run_trees(args) -> dict:
     """Worker: validate a chunk of one bounded tree population.
     args = (kind, pid, grammar name | 'hand', symset, depth, items); items are enumeration indices (or shape numbers)."""
@@ -2425,6 +2504,8 @@ def run_trees(args) -> dict:
     g = GRAMMARS.get(gname)
     evaluated = g.evaluated if g else False
     for ix in items:
+        if _PROGRESS_FD is not None:
+            os.write(_PROGRESS_FD, f"{ix}\n".encode())  # heartbeat for the watchdog of run_trees_guarded
         spec = HAND_SHAPES[ix] if g is None else tree_decode(g, ix, depth)
         try:
             value = build_tree(spec, symset, True)  # the mathematical value (guards against non-finite / huge numbers)
@@ -2544,7 +2625,7 @@ def run_property(report, pid: str, kind: str):
     ctx = mp.get_context("fork")
     with ctx.Pool(nproc) as pool:
         mod_async = pool.map_async(run_module, [(kind, pid, f) for f in files], chunksize=4)
-        tree_async = pool.map_async(run_trees, tree_tasks, chunksize=1)
+        tree_async = pool.map_async(run_trees_guarded, tree_tasks, chunksize=1)
         mod_results = mod_async.get()
         tree_results = tree_async.get()
     retry = sorted(r["retry"] for r in mod_results if r.get("retry"))
